@@ -1,4 +1,621 @@
 /- Proofs/Map.lean — helper lemmas for Props/C08.lean -/
 import PM.Map
 namespace PM
+
+/-! ### Raw (list-level) versions of the notions used by Props/C08.lean -/
+
+/-- same as `C08.WF` -/
+def RWF : Int → List Range → Prop
+  | _, [] => True
+  | lo, r :: rest => lo ≤ r.1 ∧ 0 ≤ r.2.1 ∧ 0 ≤ r.2.2 ∧ RWF (r.1 + r.2.1) rest
+
+/-- same as `C08.StrictWF` -/
+def RSWF : Int → List Range → Prop
+  | _, [] => True
+  | lo, r :: rest => lo ≤ r.1 ∧ 0 ≤ r.2.1 ∧ 0 ≤ r.2.2 ∧ RSWF (r.1 + r.2.1 + 1) rest
+
+theorem RSWF.toRWF : ∀ {rs : List Range} {lo : Int}, RSWF lo rs → RWF lo rs
+  | [], _, _ => trivial
+  | r :: rest, lo, h => by
+    obtain ⟨h1, h2, h3, h4⟩ := h
+    refine ⟨h1, h2, h3, ?_⟩
+    have := RSWF.toRWF h4
+    exact rwf_mono (by omega) this
+where
+  rwf_mono : ∀ {rs : List Range} {lo lo' : Int}, lo' ≤ lo → RWF lo rs → RWF lo' rs
+    | [], _, _, _, _ => trivial
+    | _ :: _, _, _, hl, h => ⟨by have := h.1; omega, h.2.1, h.2.2.1, h.2.2.2⟩
+
+/-- Σ_{j<i} (new_j − old_j) in stored orientation -/
+def shiftB (rs : List Range) (i : Nat) : Int := ((rs.take i).map (fun r => r.2.2 - r.2.1)).sum
+
+@[simp] theorem shiftB_zero (rs : List Range) : shiftB rs 0 = 0 := by simp [shiftB]
+@[simp] theorem shiftB_nil (i : Nat) : shiftB [] i = 0 := by simp [shiftB]
+theorem shiftB_cons_succ (r : Range) (rest : List Range) (j : Nat) :
+    shiftB (r :: rest) (j + 1) = (r.2.2 - r.2.1) + shiftB rest j := by
+  simp [shiftB]
+
+/-- old start of range `j` of the suffix `rs`, when the loop enters the suffix with accumulator `diff` -/
+def qOS (inv : Bool) (diff : Int) (rs : List Range) (j : Nat) : Int :=
+  rs[j]!.1 + (if inv then shiftB rs j - diff else 0)
+
+/-- old end -/
+def qOE (inv : Bool) (diff : Int) (rs : List Range) (j : Nat) : Int :=
+  qOS inv diff rs j + rs[j]!.oldSize inv
+
+theorem qOS_zero (inv : Bool) (diff : Int) (r : Range) (rest : List Range) :
+    qOS inv diff (r :: rest) 0 = r.1 - (if inv then diff else 0) := by
+  cases inv <;> simp [qOS]
+  omega
+
+theorem qOE_zero (inv : Bool) (diff : Int) (r : Range) (rest : List Range) :
+    qOE inv diff (r :: rest) 0 = r.1 - (if inv then diff else 0) + r.oldSize inv := by
+  simp [qOE, qOS_zero]
+
+theorem qOS_succ (inv : Bool) (diff : Int) (r : Range) (rest : List Range) (j : Nat) :
+    qOS inv diff (r :: rest) (j + 1) = qOS inv (diff + r.newSize inv - r.oldSize inv) rest j := by
+  cases inv <;> simp [qOS, shiftB_cons_succ, Range.newSize, Range.oldSize]
+  omega
+
+theorem qOE_succ (inv : Bool) (diff : Int) (r : Range) (rest : List Range) (j : Nat) :
+    qOE inv diff (r :: rest) (j + 1) = qOE inv (diff + r.newSize inv - r.oldSize inv) rest j := by
+  simp [qOE, qOS_succ]
+
+/-- new-side coordinates are old-side coordinates of the opposite orientation -/
+theorem neg_step (inv : Bool) (diff : Int) (r : Range) :
+    -diff + r.newSize (!inv) - r.oldSize (!inv) = -(diff + r.newSize inv - r.oldSize inv) := by
+  cases inv <;> simp [Range.newSize, Range.oldSize] <;> omega
+
+
+/-! ### The scanning loop of `StepMap._map` -/
+
+theorem mapAux_outside (inv : Bool) (pos assoc : Int) :
+    ∀ (rs : List Range) (lo diff : Int) (idx k : Nat), RWF lo rs → k ≤ rs.length →
+      (∀ j, j < k → qOE inv diff rs j < pos) →
+      (k < rs.length → pos < qOS inv diff rs k) →
+      mapAux inv pos assoc rs diff idx =
+        { pos := pos + diff + (if inv then - shiftB rs k else shiftB rs k) } := by
+  intro rs
+  induction rs with
+  | nil => intro lo diff idx k _ hk _ _; simp [mapAux]
+  | cons r rest ih =>
+    intro lo diff idx k hwf hk hb ha
+    cases k with
+    | zero =>
+      have h := ha (by simp)
+      rw [qOS_zero] at h
+      simp [mapAux, h]
+    | succ k =>
+      have h0 := hb 0 (by omega)
+      rw [qOE_zero] at h0
+      obtain ⟨_, h1, h2, hwf'⟩ := hwf
+      have hos : 0 ≤ r.oldSize inv := by cases inv <;> simp [Range.oldSize, *]
+      have hs : ¬ (r.1 - (if inv then diff else 0) > pos) := by omega
+      have he : ¬ (pos ≤ r.1 - (if inv then diff else 0) + r.oldSize inv) := by omega
+      rw [mapAux]
+      simp only [hs, he, if_false]
+      rw [ih _ (diff + r.newSize inv - r.oldSize inv) (idx + 1) k hwf' (by simpa using hk)
+        (fun j hj => by have := hb (j + 1) (by omega); rwa [qOE_succ] at this)
+        (fun hk' => by have := ha (by simpa using hk'); rwa [qOS_succ] at this)]
+      rw [shiftB_cons_succ]
+      cases inv <;> simp [Range.newSize, Range.oldSize] <;> omega
+
+/-- the documented result for a position inside a range with the given coordinates -/
+def insideRes (os oe ns ne : Int) (i : Nat) (pos assoc : Int) : MapResult :=
+  { pos := if (if os = oe then assoc else if pos = os then -1 else if pos = oe then 1 else assoc) < 0
+      then ns else ne
+    delInfo :=
+      let d0 := if pos = os then DEL_AFTER else if pos = oe then DEL_BEFORE else DEL_ACROSS
+      if (if assoc < 0 then pos ≠ os else pos ≠ oe) then d0 ||| DEL_SIDE else d0
+    recover := if pos = (if assoc < 0 then os else oe) then none else some (i, pos - os) }
+
+theorem mapAux_cons_inside (inv : Bool) (pos assoc : Int) (r : Range) (rest : List Range)
+    (diff : Int) (idx : Nat)
+    (h1 : r.1 - (if inv then diff else 0) ≤ pos)
+    (h2 : pos ≤ r.1 - (if inv then diff else 0) + r.oldSize inv) :
+    mapAux inv pos assoc (r :: rest) diff idx =
+      insideRes (r.1 - (if inv then diff else 0)) (r.1 - (if inv then diff else 0) + r.oldSize inv)
+        (r.1 - (if inv then diff else 0) + diff)
+        (r.1 - (if inv then diff else 0) + diff + r.newSize inv) idx pos assoc := by
+  have hs : ¬ (r.1 - (if inv then diff else 0) > pos) := by omega
+  rw [mapAux]
+  simp only [hs, h2, if_true, if_false, insideRes]
+  generalize r.1 - (if inv then diff else 0) = s
+  generalize r.oldSize inv = o
+  generalize r.newSize inv = n
+  have e : (s = s + o) ↔ (o = 0) := by omega
+  congr 1
+  · simp only [e]
+    generalize (if o = 0 then assoc else if pos = s then -1 else if pos = s + o then 1 else assoc) = sd
+    split <;> omega
+  · by_cases ha : assoc < 0 <;> simp [ha]
+
+theorem oldSize_nonneg (inv : Bool) (r : Range) (h1 : 0 ≤ r.2.1) (h2 : 0 ≤ r.2.2) :
+    0 ≤ r.oldSize inv := by cases inv <;> simp [Range.oldSize, *]
+
+theorem qNS_zero (inv : Bool) (diff : Int) (r : Range) (rest : List Range) :
+    qOS (!inv) (-diff) (r :: rest) 0 = r.1 - (if inv then diff else 0) + diff := by
+  rw [qOS_zero]; cases inv <;> simp <;> omega
+
+theorem qNE_zero (inv : Bool) (diff : Int) (r : Range) (rest : List Range) :
+    qOE (!inv) (-diff) (r :: rest) 0 = r.1 - (if inv then diff else 0) + diff + r.newSize inv := by
+  rw [qOE_zero]; cases inv <;> simp [Range.oldSize, Range.newSize] <;> omega
+
+theorem qNS_succ (inv : Bool) (diff : Int) (r : Range) (rest : List Range) (j : Nat) :
+    qOS (!inv) (-diff) (r :: rest) (j + 1) =
+      qOS (!inv) (-(diff + r.newSize inv - r.oldSize inv)) rest j := by
+  rw [qOS_succ, neg_step]
+
+theorem qNE_succ (inv : Bool) (diff : Int) (r : Range) (rest : List Range) (j : Nat) :
+    qOE (!inv) (-diff) (r :: rest) (j + 1) =
+      qOE (!inv) (-(diff + r.newSize inv - r.oldSize inv)) rest j := by
+  rw [qOE_succ, neg_step]
+
+theorem mapAux_inside (inv : Bool) (pos assoc : Int) :
+    ∀ (rs : List Range) (lo diff : Int) (idx i : Nat), RWF lo rs → i < rs.length →
+      (∀ j, j < i → qOE inv diff rs j < pos) →
+      qOS inv diff rs i ≤ pos → pos ≤ qOE inv diff rs i →
+      mapAux inv pos assoc rs diff idx =
+        insideRes (qOS inv diff rs i) (qOE inv diff rs i)
+          (qOS (!inv) (-diff) rs i) (qOE (!inv) (-diff) rs i) (idx + i) pos assoc := by
+  intro rs
+  induction rs with
+  | nil => intro lo diff idx i _ hi; simp at hi
+  | cons r rest ih =>
+    intro lo diff idx i hwf hi hb h1 h2
+    cases i with
+    | zero =>
+      rw [qOS_zero] at h1
+      rw [qOE_zero] at h2
+      rw [mapAux_cons_inside inv pos assoc r rest diff idx h1 h2, qOS_zero, qOE_zero, qNS_zero,
+        qNE_zero]
+      rfl
+    | succ i =>
+      have h0 := hb 0 (by omega)
+      rw [qOE_zero] at h0
+      obtain ⟨_, hr1, hr2, hwf'⟩ := hwf
+      have hos := oldSize_nonneg inv r hr1 hr2
+      have hs : ¬ (r.1 - (if inv then diff else 0) > pos) := by omega
+      have he : ¬ (pos ≤ r.1 - (if inv then diff else 0) + r.oldSize inv) := by omega
+      rw [mapAux]
+      simp only [hs, he, if_false]
+      rw [qOS_succ] at h1
+      rw [qOE_succ] at h2
+      rw [ih _ (diff + r.newSize inv - r.oldSize inv) (idx + 1) i hwf' (by simpa using hi)
+        (fun j hj => by have := hb (j + 1) (by omega); rwa [qOE_succ] at this) h1 h2]
+      rw [qOS_succ, qOE_succ, qNS_succ, qNE_succ, Nat.add_assoc, Nat.add_comm 1 i]
+
+/-! ### Ordering of the coordinates -/
+
+theorem qOS_le_qOE (inv : Bool) :
+    ∀ (rs : List Range) (lo diff : Int) (i : Nat), RWF lo rs → i < rs.length →
+      qOS inv diff rs i ≤ qOE inv diff rs i := by
+  intro rs
+  induction rs with
+  | nil => intro lo diff i _ hi; simp at hi
+  | cons r rest ih =>
+    intro lo diff i hwf hi
+    obtain ⟨_, hr1, hr2, hwf'⟩ := hwf
+    cases i with
+    | zero => rw [qOS_zero, qOE_zero]; have := oldSize_nonneg inv r hr1 hr2; omega
+    | succ i => rw [qOS_succ, qOE_succ]; exact ih _ _ _ hwf' (by simpa using hi)
+
+theorem lo_le_qOS (inv : Bool) :
+    ∀ (rs : List Range) (lo diff : Int) (i : Nat), RWF lo rs → i < rs.length →
+      lo - (if inv then diff else 0) ≤ qOS inv diff rs i := by
+  intro rs
+  induction rs with
+  | nil => intro lo diff i _ hi; simp at hi
+  | cons r rest ih =>
+    intro lo diff i hwf hi
+    obtain ⟨hlo, hr1, hr2, hwf'⟩ := hwf
+    cases i with
+    | zero => rw [qOS_zero]; omega
+    | succ i =>
+      rw [qOS_succ]
+      have := ih _ (diff + r.newSize inv - r.oldSize inv) i hwf' (by simpa using hi)
+      revert this
+      cases inv <;> simp [Range.newSize, Range.oldSize] <;> omega
+
+/-- weak separation: ranges do not overlap (they may touch) -/
+theorem qOE_le_qOS (inv : Bool) :
+    ∀ (rs : List Range) (lo diff : Int) (j i : Nat), RWF lo rs → j < i → i < rs.length →
+      qOE inv diff rs j ≤ qOS inv diff rs i := by
+  intro rs
+  induction rs with
+  | nil => intro lo diff j i _ _ hi; simp at hi
+  | cons r rest ih =>
+    intro lo diff j i hwf hji hi
+    obtain ⟨hlo, hr1, hr2, hwf'⟩ := hwf
+    cases i with
+    | zero => omega
+    | succ i =>
+      cases j with
+      | zero =>
+        rw [qOS_succ, qOE_zero]
+        have := lo_le_qOS inv rest _ (diff + r.newSize inv - r.oldSize inv) i hwf' (by simpa using hi)
+        revert this
+        cases inv <;> simp [Range.newSize, Range.oldSize] <;> omega
+      | succ j =>
+        rw [qOS_succ, qOE_succ]
+        exact ih _ _ _ _ hwf' (by omega) (by simpa using hi)
+
+theorem slo_le_qOS (inv : Bool) :
+    ∀ (rs : List Range) (lo diff : Int) (i : Nat), RSWF lo rs → i < rs.length →
+      lo - (if inv then diff else 0) ≤ qOS inv diff rs i :=
+  fun rs lo diff i h hi => lo_le_qOS inv rs lo diff i h.toRWF hi
+
+/-- strict separation -/
+theorem qOE_lt_qOS (inv : Bool) :
+    ∀ (rs : List Range) (lo diff : Int) (j i : Nat), RSWF lo rs → j < i → i < rs.length →
+      qOE inv diff rs j < qOS inv diff rs i := by
+  intro rs
+  induction rs with
+  | nil => intro lo diff j i _ _ hi; simp at hi
+  | cons r rest ih =>
+    intro lo diff j i hwf hji hi
+    obtain ⟨hlo, hr1, hr2, hwf'⟩ := hwf
+    cases i with
+    | zero => omega
+    | succ i =>
+      cases j with
+      | zero =>
+        rw [qOS_succ, qOE_zero]
+        have := slo_le_qOS inv rest _ (diff + r.newSize inv - r.oldSize inv) i hwf' (by simpa using hi)
+        revert this
+        cases inv <;> simp [Range.newSize, Range.oldSize] <;> omega
+      | succ j =>
+        rw [qOS_succ, qOE_succ]
+        exact ih _ _ _ _ hwf' (by omega) (by simpa using hi)
+
+/-! ### for_each -/
+
+theorem forEachAux_spec (inv : Bool) :
+    ∀ (rs : List Range) (diff : Int), forEachAux inv rs diff =
+      (List.range rs.length).map (fun i =>
+        (qOS inv diff rs i, qOE inv diff rs i, qOS (!inv) (-diff) rs i, qOE (!inv) (-diff) rs i)) := by
+  intro rs
+  induction rs with
+  | nil => intro diff; simp [forEachAux]
+  | cons r rest ih =>
+    intro diff
+    rw [forEachAux]
+    simp only [List.length_cons, List.range_succ_eq_map, List.map_cons, List.map_map]
+    rw [ih, qOS_zero, qOE_zero, qNS_zero, qNE_zero]
+    congr 1
+    · cases inv <;> simp <;> omega
+    · apply List.map_congr_left
+      intro i _
+      simp only [Function.comp, qOS_succ, qOE_succ, neg_step]
+
+/-! ### touches -/
+
+theorem touchesAux_spec (inv : Bool) (pos : Int) (index : Nat) :
+    ∀ (rs : List Range) (lo diff : Int) (idx : Nat), RWF lo rs →
+      (touchesAux inv pos index rs diff idx = true ↔
+        ∃ i, index = idx + i ∧ i < rs.length ∧ qOS inv diff rs i ≤ pos ∧ pos ≤ qOE inv diff rs i) := by
+  intro rs
+  induction rs with
+  | nil => intro lo diff idx _; simp [touchesAux]
+  | cons r rest ih =>
+    intro lo diff idx hwf
+    have hlo := fun i hi => lo_le_qOS inv (r :: rest) lo diff i hwf hi
+    have h0 := hlo 0 (by simp)
+    obtain ⟨hl, hr1, hr2, hwf'⟩ := hwf
+    rw [touchesAux]
+    by_cases hs : r.1 - (if inv then diff else 0) > pos
+    · simp only [hs, if_true]
+      constructor
+      · intro h; cases h
+      · rintro ⟨i, _, hi, h1, _⟩
+        exfalso
+        cases i with
+        | zero => rw [qOS_zero] at h1; omega
+        | succ i =>
+          have := qOE_le_qOS inv (r :: rest) lo diff 0 (i + 1) ⟨hl, hr1, hr2, hwf'⟩ (by omega) hi
+          rw [qOE_zero] at this
+          have := oldSize_nonneg inv r hr1 hr2
+          omega
+    · simp only [hs, if_false]
+      by_cases hc : (decide (pos ≤ r.1 - (if inv then diff else 0) + r.oldSize inv) && idx == index) = true
+      · simp only [hc, if_true, true_iff]
+        simp at hc
+        exact ⟨0, by omega, by simp, by rw [qOS_zero]; omega, by rw [qOE_zero]; omega⟩
+      · simp only [hc, Bool.false_eq_true, if_false]
+        rw [ih _ _ _ hwf']
+        simp at hc
+        constructor
+        · rintro ⟨i, e, hi, h1, h2⟩
+          exact ⟨i + 1, by omega, by simpa using hi, by rwa [qOS_succ], by rwa [qOE_succ]⟩
+        · rintro ⟨i, e, hi, h1, h2⟩
+          cases i with
+          | zero =>
+            rw [qOE_zero] at h2
+            exact absurd (by omega) (hc h2)
+          | succ i =>
+            rw [qOS_succ] at h1; rw [qOE_succ] at h2
+            exact ⟨i, by omega, by simpa using hi, h1, h2⟩
+
+/-! ### Locating a position -/
+
+theorem locate (os oe : Nat → Int) (pos : Int) : ∀ n : Nat,
+    (∃ i, i < n ∧ (∀ j, j < i → oe j < pos) ∧ os i ≤ pos ∧ pos ≤ oe i) ∨
+    (∃ k, k ≤ n ∧ (∀ j, j < k → oe j < pos) ∧ (k < n → pos < os k)) := by
+  intro n
+  induction n with
+  | zero => exact Or.inr ⟨0, Nat.le_refl _, fun j hj => by omega, fun h => by omega⟩
+  | succ n ih =>
+    rcases ih with ⟨i, hi, h⟩ | ⟨k, hk, hb, ha⟩
+    · exact Or.inl ⟨i, by omega, h⟩
+    · by_cases hkn : k < n
+      · exact Or.inr ⟨k, by omega, hb, fun _ => ha hkn⟩
+      · have : k = n := by omega
+        subst this
+        by_cases h2 : pos ≤ oe k
+        · by_cases h1 : os k ≤ pos
+          · exact Or.inl ⟨k, by omega, hb, h1, h2⟩
+          · exact Or.inr ⟨k, by omega, hb, fun _ => by omega⟩
+        · refine Or.inr ⟨k + 1, by omega, fun j hj => ?_, fun h => by omega⟩
+          by_cases hjk : j < k
+          · exact hb j hjk
+          · have : j = k := by omega
+            subst this; omega
+
+/-! ### Monotonicity -/
+
+theorem end_eq (inv : Bool) (diff : Int) (r : Range) :
+    r.1 + r.2.1 - (if inv then diff + r.newSize inv - r.oldSize inv else 0) =
+      r.1 - (if inv then diff else 0) + r.oldSize inv := by
+  cases inv <;> simp [Range.newSize, Range.oldSize] <;> omega
+
+theorem newSize_nonneg (inv : Bool) (r : Range) (h1 : 0 ≤ r.2.1) (h2 : 0 ≤ r.2.2) :
+    0 ≤ r.newSize inv := by cases inv <;> simp [Range.newSize, *]
+
+theorem insideRes_pos_bounds (os oe ns ne : Int) (i : Nat) (pos assoc : Int) (h : ns ≤ ne) :
+    ns ≤ (insideRes os oe ns ne i pos assoc).pos ∧ (insideRes os oe ns ne i pos assoc).pos ≤ ne := by
+  simp only [insideRes]; split <;> omega
+
+theorem insideRes_pos_mono (os oe ns ne : Int) (i : Nat) (p q assoc : Int) (h : ns ≤ ne)
+    (h1 : os ≤ p) (h2 : p ≤ q) (h3 : q ≤ oe) :
+    (insideRes os oe ns ne i p assoc).pos ≤ (insideRes os oe ns ne i q assoc).pos := by
+  simp only [insideRes]
+  repeat' split
+  all_goals omega
+
+theorem mapAux_cons_after (inv : Bool) (pos assoc : Int) (r : Range) (rest : List Range)
+    (diff : Int) (idx : Nat) (ho : 0 ≤ r.oldSize inv)
+    (h : r.1 - (if inv then diff else 0) + r.oldSize inv < pos) :
+    mapAux inv pos assoc (r :: rest) diff idx =
+      mapAux inv pos assoc rest (diff + r.newSize inv - r.oldSize inv) (idx + 1) := by
+  have hs : ¬ (r.1 - (if inv then diff else 0) > pos) := by omega
+  have he : ¬ (pos ≤ r.1 - (if inv then diff else 0) + r.oldSize inv) := by omega
+  rw [mapAux]
+  simp only [hs, he, if_false]
+
+theorem mapAux_cons_before (inv : Bool) (pos assoc : Int) (r : Range) (rest : List Range)
+    (diff : Int) (idx : Nat) (h : pos < r.1 - (if inv then diff else 0)) :
+    mapAux inv pos assoc (r :: rest) diff idx = { pos := pos + diff } := by
+  rw [mapAux]
+  simp only [gt_iff_lt, h, if_true]
+
+theorem mapAux_lb (inv : Bool) (pos assoc : Int) :
+    ∀ (rs : List Range) (lo diff : Int) (idx : Nat), RWF lo rs →
+      lo - (if inv then diff else 0) ≤ pos →
+      lo - (if inv then diff else 0) + diff ≤ (mapAux inv pos assoc rs diff idx).pos := by
+  intro rs
+  induction rs with
+  | nil => intro lo diff idx _ h; simp only [mapAux]; omega
+  | cons r rest ih =>
+    intro lo diff idx hwf h
+    obtain ⟨hl, hr1, hr2, hwf'⟩ := hwf
+    have ho := oldSize_nonneg inv r hr1 hr2
+    have hn := newSize_nonneg inv r hr1 hr2
+    by_cases hs : pos < r.1 - (if inv then diff else 0)
+    · rw [mapAux_cons_before _ _ _ _ _ _ _ hs]; simp only; omega
+    · by_cases he : pos ≤ r.1 - (if inv then diff else 0) + r.oldSize inv
+      · rw [mapAux_cons_inside _ _ _ _ _ _ _ (by omega) he]
+        have := (insideRes_pos_bounds (r.1 - (if inv then diff else 0))
+          (r.1 - (if inv then diff else 0) + r.oldSize inv)
+          (r.1 - (if inv then diff else 0) + diff)
+          (r.1 - (if inv then diff else 0) + diff + r.newSize inv) idx pos assoc (by omega)).1
+        omega
+      · rw [mapAux_cons_after _ _ _ _ _ _ _ ho (by omega)]
+        have := ih _ (diff + r.newSize inv - r.oldSize inv) (idx + 1) hwf'
+          (by rw [end_eq]; omega)
+        rw [end_eq] at this
+        omega
+
+theorem mapAux_mono (inv : Bool) (p q assoc : Int) (hpq : p ≤ q) :
+    ∀ (rs : List Range) (lo diff : Int) (idx : Nat), RWF lo rs →
+      (mapAux inv p assoc rs diff idx).pos ≤ (mapAux inv q assoc rs diff idx).pos := by
+  intro rs
+  induction rs with
+  | nil => intro lo diff idx _; simp only [mapAux]; omega
+  | cons r rest ih =>
+    intro lo diff idx hwf
+    obtain ⟨hl, hr1, hr2, hwf'⟩ := hwf
+    have ho := oldSize_nonneg inv r hr1 hr2
+    have hn := newSize_nonneg inv r hr1 hr2
+    by_cases hsq : q < r.1 - (if inv then diff else 0)
+    · rw [mapAux_cons_before _ _ _ _ _ _ _ hsq, mapAux_cons_before _ _ _ _ _ _ _ (by omega)]
+      simp only; omega
+    · by_cases hsp : p < r.1 - (if inv then diff else 0)
+      · rw [mapAux_cons_before _ _ _ _ _ _ _ hsp]
+        have := mapAux_lb inv q assoc (r :: rest) r.1 diff idx ⟨Int.le_refl _, hr1, hr2, hwf'⟩
+          (by omega)
+        simp only; omega
+      · by_cases hep : p ≤ r.1 - (if inv then diff else 0) + r.oldSize inv
+        · rw [mapAux_cons_inside _ p _ _ _ _ _ (by omega) hep]
+          by_cases heq : q ≤ r.1 - (if inv then diff else 0) + r.oldSize inv
+          · rw [mapAux_cons_inside _ q _ _ _ _ _ (by omega) heq]
+            exact insideRes_pos_mono _ _ _ _ _ _ _ _ (by omega) (by omega) hpq heq
+          · rw [mapAux_cons_after _ q _ _ _ _ _ ho (by omega)]
+            have h1 := (insideRes_pos_bounds (r.1 - (if inv then diff else 0))
+              (r.1 - (if inv then diff else 0) + r.oldSize inv)
+              (r.1 - (if inv then diff else 0) + diff)
+              (r.1 - (if inv then diff else 0) + diff + r.newSize inv) idx p assoc (by omega)).2
+            have h2 := mapAux_lb inv q assoc rest _ (diff + r.newSize inv - r.oldSize inv) (idx + 1)
+              hwf' (by rw [end_eq]; omega)
+            rw [end_eq] at h2
+            omega
+        · rw [mapAux_cons_after _ p _ _ _ _ _ ho (by omega),
+            mapAux_cons_after _ q _ _ _ _ _ ho (by omega)]
+          exact ih _ _ _ hwf'
+
+theorem insideRes_deleted (os oe ns ne : Int) (i : Nat) (pos assoc : Int) :
+    (insideRes os oe ns ne i pos assoc).deleted = true ↔
+      (if assoc < 0 then pos ≠ os else pos ≠ oe) := by
+  simp only [insideRes, MapResult.deleted, DEL_AFTER, DEL_BEFORE, DEL_ACROSS, DEL_SIDE]
+  by_cases hc : (if assoc < 0 then pos ≠ os else pos ≠ oe) <;>
+    simp only [hc, if_true, if_false, iff_true, iff_false] <;> repeat' split
+  all_goals decide
+
+/-! ### Inversion -/
+
+theorem shiftB_succ (rs : List Range) (j : Nat) (hj : j < rs.length) :
+    shiftB rs (j + 1) = shiftB rs j + (rs[j]!.2.2 - rs[j]!.2.1) := by
+  unfold shiftB
+  rw [List.take_add_one, List.getElem?_eq_getElem hj, getElem!_pos rs j hj]
+  simp only [Option.toList_some, List.map_append, List.sum_append, List.map_cons, List.map_nil,
+    List.sum_cons, List.sum_nil]
+  omega
+
+theorem qNS_eq (inv : Bool) (diff : Int) (rs : List Range) (j : Nat) :
+    qOS (!inv) (-diff) rs j =
+      qOS inv diff rs j + diff + (if inv then - shiftB rs j else shiftB rs j) := by
+  cases inv <;> simp [qOS] <;> omega
+
+theorem qNE_eq (inv : Bool) (diff : Int) (rs : List Range) (j : Nat) (hj : j < rs.length) :
+    qOE (!inv) (-diff) rs j =
+      qOE inv diff rs j + diff + (if inv then - shiftB rs (j + 1) else shiftB rs (j + 1)) := by
+  rw [qOE, qOE, qNS_eq, shiftB_succ rs j hj]
+  cases inv <;> simp [Range.oldSize] <;> omega
+
+theorem qOE_mono (inv : Bool) (rs : List Range) (lo diff : Int) (j i : Nat) (hwf : RWF lo rs)
+    (hji : j ≤ i) (hi : i < rs.length) : qOE inv diff rs j ≤ qOE inv diff rs i := by
+  by_cases h : j = i
+  · subst h; exact Int.le_refl _
+  · have h1 := qOE_le_qOS inv rs lo diff j i hwf (by omega) hi
+    have h2 := qOS_le_qOE inv rs lo diff i hwf hi
+    omega
+
+/-- a position outside the ranges is mapped to a position outside the ranges of the inverse -/
+theorem outside_transfer (inv : Bool) (rs : List Range) (lo : Int) (hwf : RWF lo rs) (pos : Int)
+    (k : Nat) (hk : k ≤ rs.length) (hb : ∀ j, j < k → qOE inv 0 rs j < pos)
+    (ha : k < rs.length → pos < qOS inv 0 rs k) :
+    (∀ j, j < k → qOE (!inv) 0 rs j < pos + (if inv then - shiftB rs k else shiftB rs k)) ∧
+    (k < rs.length → pos + (if inv then - shiftB rs k else shiftB rs k) < qOS (!inv) 0 rs k) := by
+  constructor
+  · intro j hj
+    cases k with
+    | zero => omega
+    | succ k =>
+      have h1 := qOE_mono (!inv) rs lo 0 j k hwf (by omega) (by omega)
+      have h2 := qNE_eq inv 0 rs k (by omega)
+      have h3 := hb k (by omega)
+      rw [Int.neg_zero] at h2
+      omega
+  · intro hk'
+    have h2 := qNS_eq inv 0 rs k
+    have h3 := ha hk'
+    rw [Int.neg_zero] at h2
+    omega
+
+/-! ### Mapping -/
+
+theorem appendMap_maps (m : Mapping) (sm : StepMap) (mirr : Option Nat) :
+    (m.appendMap sm mirr).maps = m.maps ++ [sm] := by
+  cases mirr <;> simp [Mapping.appendMap, Mapping.setMirror]
+
+theorem foldl_range_maps (f : Mapping → Nat → Mapping) (l : List StepMap)
+    (h : ∀ acc i, (hi : i < l.length) → (f acc i).maps = acc.maps ++ [l[i]]) :
+    ∀ n, n ≤ l.length → ∀ acc, ((List.range n).foldl f acc).maps = acc.maps ++ l.take n := by
+  intro n
+  induction n with
+  | zero => intro _ acc; simp
+  | succ n ih =>
+    intro hn acc
+    rw [List.range_succ, List.foldl_append, List.foldl_cons, List.foldl_nil, h _ n (by omega),
+      ih (by omega), List.append_assoc, List.take_add_one]
+    simp [List.getElem?_eq_getElem (show n < l.length by omega)]
+
+theorem foldl_range_reverse_maps (f : Mapping → Nat → Mapping) (l : List StepMap)
+    (h : ∀ acc i, (hi : i < l.length) → (f acc i).maps = acc.maps ++ [l[i].invert]) :
+    ∀ n, n ≤ l.length → ∀ acc,
+      ((List.range n).reverse.foldl f acc).maps = acc.maps ++ (l.take n).reverse.map StepMap.invert := by
+  intro n
+  induction n with
+  | zero => intro _ acc; simp
+  | succ n ih =>
+    intro hn acc
+    rw [List.range_succ, List.reverse_append, List.reverse_singleton, List.singleton_append,
+      List.foldl_cons, ih (by omega), h _ n (by omega), List.append_assoc]
+    have e : l.take (n + 1) = l.take n ++ [l[n]] := by
+      rw [List.take_add_one]; simp [List.getElem?_eq_getElem (show n < l.length by omega)]
+    rw [e]
+    simp only [List.reverse_append, List.reverse_singleton, List.map_cons,
+      List.cons_append, List.nil_append]
+
+theorem getMirrorAux_nil (n : Nat) : getMirrorAux n [] = none := rfl
+
+theorem mappingMapAux_plain (mp : Mapping) (hm : mp.mirror = []) (hto : mp.to ≤ mp.maps.length)
+    (assoc : Int) :
+    ∀ (fuel i : Nat) (pos : Int) (del : Nat), mp.to - i < fuel →
+      (mappingMapAux mp assoc fuel i pos del).map (·.pos) =
+        some (((mp.maps.take mp.to).drop i).foldl (fun p sm => sm.map p assoc) pos) := by
+  intro fuel
+  induction fuel with
+  | zero => intro i pos del h; omega
+  | succ fuel ih =>
+    intro i pos del h
+    rw [mappingMapAux]
+    by_cases hi : i < mp.to
+    · have hil : i < mp.maps.length := by omega
+      have hd : (mp.maps.take mp.to).drop i = mp.maps[i] :: (mp.maps.take mp.to).drop (i + 1) := by
+        rw [List.drop_eq_getElem_cons (by simp; omega)]
+        simp
+      simp only [hi, if_true, List.getElem?_eq_getElem hil, Mapping.getMirror, hm, getMirrorAux_nil]
+      rw [hd, List.foldl_cons]
+      split <;> exact ih _ _ _ (by omega)
+    · simp only [hi, if_false, Option.map_some]
+      rw [List.drop_eq_nil_of_le (by simp; omega)]
+      rfl
+
+/-! single steps of `Mapping._map` -/
+
+theorem mappingMapAux_done (mp : Mapping) (assoc : Int) (fuel i : Nat) (pos : Int) (del : Nat)
+    (h : ¬ i < mp.to) : mappingMapAux mp assoc fuel i pos del = some { pos := pos, delInfo := del } := by
+  cases fuel <;> rw [mappingMapAux] <;> simp only [h, if_false]
+
+/-- no mirror jump: the position is mapped through map `i` and the loop continues at `i + 1` -/
+theorem mappingMapAux_step_nojump (mp : Mapping) (assoc : Int) (fuel i : Nat) (pos : Int) (del : Nat)
+    (sm : StepMap) (hi : i < mp.to) (hsm : mp.maps[i]? = some sm)
+    (h : (sm.mapResult pos assoc).recover = none ∨
+      ∀ corr, mp.getMirror i = some corr → ¬ (corr > i ∧ corr < mp.to)) :
+    mappingMapAux mp assoc (fuel + 1) i pos del =
+      mappingMapAux mp assoc fuel (i + 1) (sm.mapResult pos assoc).pos
+        (del ||| (sm.mapResult pos assoc).delInfo) := by
+  rw [mappingMapAux]
+  simp only [hi, if_true, hsm]
+  split
+  · next rv hrv =>
+    split
+    · next corr hc =>
+      rcases h with h | h
+      · rw [h] at hrv; cases hrv
+      · simp only [h corr hc, if_false]
+    · rfl
+  · rfl
+
+/-- mirror jump: the recover value is turned back into a position by the mirror map -/
+theorem mappingMapAux_step_mirror (mp : Mapping) (assoc : Int) (fuel i : Nat) (pos : Int) (del : Nat)
+    (sm cm : StepMap) (rv : Nat × Int) (corr : Nat) (p : Int)
+    (hi : i < mp.to) (hsm : mp.maps[i]? = some sm)
+    (hrv : (sm.mapResult pos assoc).recover = some rv)
+    (hc : mp.getMirror i = some corr) (hci : corr > i) (hct : corr < mp.to)
+    (hcm : mp.maps[corr]? = some cm) (hp : cm.recover rv = some p) :
+    mappingMapAux mp assoc (fuel + 1) i pos del = mappingMapAux mp assoc fuel (corr + 1) p del := by
+  rw [mappingMapAux]
+  simp only [hi, if_true, hsm, hrv, hc, hci, hct, and_self, hcm, hp]
+
 end PM
